@@ -37,6 +37,22 @@ theorem C08_table_has_finish :
     multiples of eps). -/
 theorem C08_eps_matches_rounding : Gen.timeEps * 1000000 = 1 := by decide +kernel
 
+/-- `Sim.modules` chains the containers in the order the model uses (`chainOrder`). -/
+theorem C08_modules_chain_is_model : Gen.modulesChain = chainOrder.map Kind.name := by decide
+
+/-- The only clock updates in `Sim`, `Module` and `Loop`: `finish_step` increments by one (sim and module), `Sim.run`
+    decrements the sim's and every module's clock by one on completion.  In particular `start_step` and `step` do
+    not touch a clock (the model's `bump` / `afterRun`). -/
+theorem C08_clock_writes :
+    Gen.tiWrites = [("Sim", "finish_step", "self.t.ti", "+", "1"), ("Sim", "run", "self.t.ti", "-", "1"),
+                    ("Sim", "run", "mod.t.ti", "-", "1"), ("Module", "finish_step", "self.t.ti", "+", "1")] := by decide
+
+/-- `people.*` functions are scheduled on the sim's time vector, every module on its own (`collect_abs_tvecs`): the
+    model treats `people.*` as functions of owner 0. -/
+theorem C08_people_follow_sim :
+    Gen.absTvecs = [("sim", "sim.t.abstvec"), ("people", "sim.t.abstvec"), ("sim.modules:mod.name", "mod.t.abstvec")] := by
+  decide
+
 /-- **Well-formed function list, for every module set**: orders are the positions, a clock-incrementing
     function is the last of its owner's functions, and every owner that has a function has one. -/
 theorem C08_collect_wellformed (mods : List Mod) :
